@@ -290,12 +290,51 @@ def h_two_checksigs(ctx, pos, cls):
     ctx.check(not ok2, 'committed edit invalidates the signature', detail='signature over the stale script code of the previous check')
 
 
+def h_shared_tx(ctx, pos2, cls, mutable):
+    """history: ONE transaction object, two independently signed inputs (input 0 under ALL, input pos2 under an arbitrary type
+    of class cls); verifying one input must not disturb the verdict on the other, in either order"""
+    S = ctx.script
+    SE = ctx.scripteval
+    C = ctx.core
+    B = ctx.B
+    push = lambda d: RS.push_encode(ctx, d)
+    f = K.mk_tx_fields(ctx, dict(sig=[0] * 3, spk=[1] * 3, wit=None), pre='tx')
+    ht2 = _ht(ctx, cls)
+    keys = _keys(ctx, 2)
+    code0 = push(keys[0][0]) + B(b'\xac')
+    code2 = push(keys[1][0]) + B(b'\xac')
+
+    def digest(code, pos, ht):
+        r = SH.legacy_preimage(ctx, f, code, pos, ht)
+        return B(SH.ONE) if r[0] == 'one' else ctx.dsha256(r[1])
+    ssig0 = push(keys[0][1](digest(code0, 0, 1)) + ctx.bytes_of([1]))
+    ssig2 = push(keys[1][1](digest(code2, pos2, ht2)) + ctx.bytes_of([ht2]))
+    g = dict(f)
+    g['vin'] = [dict(i) for i in f['vin']]
+    g['vin'][0]['scriptSig'] = ssig0
+    g['vin'][pos2]['scriptSig'] = ssig2
+    tx = K.build_tx(ctx, g, mutable)
+    before = tx.serialize()
+
+    def ok(ssig, code, pos):
+        try:
+            SE.VerifyScript(S.CScript(ssig), S.CScript(code), tx, pos, flags=set())
+            return True
+        except C.ValidationError:
+            return False
+    ctx.check(ok(ssig0, code0, 0), 'signed input is accepted', detail='input 0, first')
+    ctx.check(ok(ssig2, code2, pos2), 'signed input is accepted', detail='input %d after input 0 on the same object' % pos2)
+    ctx.check(ok(ssig0, code0, 0), 'signed input is accepted', detail='input 0 again after input %d was verified' % pos2)
+    ctx.check(ok(ssig2, code2, pos2), 'signed input is accepted', detail='input %d again' % pos2)
+    ctx.check(tx.serialize() == before, 'signed input is accepted', detail='verification left the transaction unchanged')
+
+
 def h_single_nomatch(ctx, template, cls):
     """SIGHASH_SINGLE at an input index without a matching output: the historical digest 1 is what gets signed and verified"""
     h_signed(ctx, template, 2, cls, None, nin=3, nout=2)
 
 
-HARNESSES = {'two_checksigs': h_two_checksigs, 'signed': h_signed, 'single_nomatch': h_single_nomatch}
+HARNESSES = {'shared_tx': h_shared_tx, 'two_checksigs': h_two_checksigs, 'signed': h_signed, 'single_nomatch': h_single_nomatch}
 
 
 def instances(tier):
@@ -315,6 +354,9 @@ def instances(tier):
     for pos in (0, 1):
         for cls in ('all', 'none_acp', 'single'):
             out.append(dict(h='two_checksigs', p=dict(pos=pos, cls=cls)))
+    for pos2 in (1, 2):
+        for ci, cls in enumerate(HTCLASSES):
+            out.append(dict(h='shared_tx', p=dict(pos2=pos2, cls=cls, mutable=bool((ci + pos2) % 3 != 0))))
     for t in ('p2pk', 'ms1of2', 'p2sh_p2pk'):
         for cls in ('single', 'single_acp'):
             out.append(dict(h='single_nomatch', p=dict(template=t, cls=cls)))
